@@ -47,6 +47,34 @@ func verifArg(name string, kinds int) Object {
 	return Array{}
 }
 
+// verifLongArg: a long argument of length n whose bytes/elements all equal one
+// symbolic value (lengths around buffer-size boundaries matter, contents do
+// not; one shared symbol keeps the number of paths independent of n).
+// kind 0 bytes, 1 string, 2 array of ints, 3 array holding the bytes and the
+// string, 4 map holding them.
+func verifLongArg(name string, n, kind int) Object {
+	b := verifrt.Byte(name + ".fill")
+	raw := make([]byte, n)
+	for i := range raw {
+		raw[i] = b
+	}
+	switch kind {
+	case 0:
+		return Bytes(raw)
+	case 1:
+		return String(raw)
+	case 2:
+		arr := make(Array, n)
+		for i := range arr {
+			arr[i] = Int(b)
+		}
+		return arr
+	case 3:
+		return Array{Bytes(raw), String(raw), Int(n)}
+	}
+	return Map{"b": Bytes(raw), "s": String(raw)}
+}
+
 // VerifCallTotal calls callable f (both entry points when it has them) with
 // nargs arguments of kinds chosen among the first "kinds" argument kinds and
 // asserts totality: a value or an error, no panic, no allocation above the
@@ -58,6 +86,10 @@ func VerifCallTotal(f Object, nargs, kinds int) {
 		args[i] = verifArg(names[i], kinds)
 	}
 	verifrt.AllocBudget(1 << 26)
+	if n := verifrt.Param("long"); n > 0 && nargs > 0 {
+		args[0] = verifLongArg("long", n, verifrt.Param("lk"))
+		verifrt.AllocBudget(1 << 21) // honoured sizes multiply with the long argument
+	}
 	var v Object
 	var err error
 	called := false
